@@ -674,13 +674,14 @@ func latchOf(l *loopInfo) *ssa.BasicBlock {
 }
 
 // runC09Config: configuration and identity rules of the LRU.
-//   capacity   the constructor stores the requested capacity unchanged (the first optional
-//              argument when given, the documented default otherwise): no clamping, no rounding
-//   callback   the setter stores exactly the function it is given (a wrapper can drop or alter
-//              notifications)
-//   identity   the private removal helper finds the key of the element being removed by element
-//              IDENTITY (pointer equality with the element), never by comparing stored values
-//              (two keys may hold equal values)
+//
+//	capacity   the constructor stores the requested capacity unchanged (the first optional
+//	           argument when given, the documented default otherwise): no clamping, no rounding
+//	callback   the setter stores exactly the function it is given (a wrapper can drop or alter
+//	           notifications)
+//	identity   the private removal helper finds the key of the element being removed by element
+//	           IDENTITY (pointer equality with the element), never by comparing stored values
+//	           (two keys may hold equal values)
 func runC09Config(c *Ctx, named *types.Named) {
 	p := c.P
 	c.Rule("C09-CONFIG", "constructor stores the requested capacity unchanged; the callback setter stores its argument; the removed element's key is found by element identity", 3)
@@ -923,11 +924,12 @@ func runC09Config(c *Ctx, named *types.Named) {
 }
 
 // runC09Live: the map and the list are always updated on the state that stays live.
-//   live-map   every mutation of the key->element map (insert, delete) is applied to the map
-//              that is the field's content at that moment: the operand is a load of the field
-//              with no assignment of the field between that load and the mutation (an alias taken
-//              before the periodic rebuild points at the abandoned map)
-//   own-value  Load returns the Value of the very element it found under the key
+//
+//	live-map   every mutation of the key->element map (insert, delete) is applied to the map
+//	           that is the field's content at that moment: the operand is a load of the field
+//	           with no assignment of the field between that load and the mutation (an alias taken
+//	           before the periodic rebuild points at the abandoned map)
+//	own-value  Load returns the Value of the very element it found under the key
 func runC09Live(c *Ctx, named *types.Named) {
 	p := c.P
 	c.Rule("C09-LIVE", "map mutations act on the live map (no field assignment between loading the map and mutating it); Load returns the value of the element it looked up", 2)
